@@ -378,6 +378,49 @@ def check_is_improper(ctx, lib, rule):
         ctx.expect(okd, rule, fd["npath"] + "|bar-iff-improper", site_of(fd), "Display must print the ` | tail` form exactly for improper lists (self.is_improper())")
 
 
+def check_list_ops_via_iter(ctx, lib, rule):
+    """contains / indexing are defined through the element iterators (so they see exactly the
+    element sequence decided above, improper tail included); extend appends at the end of the spine."""
+    ev = sym.Evaluator(lib, inline=lambda p, f: False)
+    fn = streams.getfn(ctx, lib, rule, "crate::lterm::LTerm::contains")
+    if fn:
+        t = ev.fn_term(fn)
+        r = tables.result(t)
+        ok = r[0] == "call" and suffix_match(r[1], "any") and len(r[2]) == 2 and r[2][0][0] == "call" and suffix_match(r[2][0][1], "LTerm::iter") and r[2][0][2][0][:2] == ("param", 0) and r[2][1][0] == "closure"
+        if ok:
+            clo = r[2][1]
+            b = tables.result(clo[3])
+            elem = ("cparam", clo[1], 0)
+            ok = b[0] == "binop" and b[1] == "Eq" or (b[0] == "call" and suffix_match(b[1], "eq"))
+            operands = b[2:4] if b[0] == "binop" else b[2]
+            ok = ok and elem in operands and any(o[:2] == ("param", 1) or (o[0] == "call" and o[2] and o[2][0][:2] == ("param", 1)) for o in operands)
+        ctx.expect(ok, rule, "LTerm::contains|any-over-iter", site_of(fn), "contains(v) must be `self.iter().any(|u| u == v)` (membership in the element sequence, improper tail included); found %s" % show(t, maxdepth=6)[:200])
+    for name, it in (("<crate::lterm::LTerm as std::ops::Index<usize>>::index", "LTerm::iter"), ("<crate::lterm::LTerm as std::ops::IndexMut<usize>>::index_mut", "LTerm::iter_mut")):
+        fn = streams.getfn(ctx, lib, rule, name)
+        if fn:
+            t = ev.fn_term(fn)
+            nth = list(dict.fromkeys(c for c in sym.calls(t, "nth")))
+            ok = len(nth) == 1 and nth[0][2][0][0] == "call" and suffix_match(nth[0][2][0][1], it) and nth[0][2][0][2][0][:2] == ("param", 0) and nth[0][2][1][:2] == ("param", 1)
+            ctx.expect(ok, rule, name.split("::")[-1] + "|nth-of-iter", site_of(fn), "indexing must be the n-th element of %s (same element sequence as iteration); found %s" % (it, show(t, maxdepth=5)[:160]))
+    for name, target in (("crate::lterm::LTerm::iter", "LTermIter::new"), ("crate::lterm::LTerm::iter_mut", "LTermIterMut::new")):
+        fn = streams.getfn(ctx, lib, rule, name)
+        if fn:
+            t = ev.fn_term(fn)
+            r = tables.result(t)
+            ctx.expect(r[0] == "call" and suffix_match(r[1], target) and r[2][0][:2] == ("param", 0), rule, name.split("::")[-1] + "|starts-at-self", site_of(fn), "%s must start the iterator at the term itself" % name.split("::")[-1])
+    for name in ("crate::lterm::LTermIter::new", "crate::lterm::LTermIterMut::new"):
+        fn = streams.getfn(ctx, lib, rule, name)
+        if fn:
+            t = ev.fn_term(fn)
+            nodes = [x for x in sym.subterms(t) if x[0] == "struct" and "LTermIter" in x[1]]
+            ok = len(nodes) == 1
+            if ok:
+                f = dict(nodes[0][2])
+                v = f.get("maybe_next", ("", 0))
+                ok = v[0] == "ctor" and v[1].endswith("Some") and v[2] and v[2][0][:2] == ("param", 0)
+            ctx.expect(ok, rule, name.split("::")[-2] + "::new|cursor-at-start", site_of(fn), "a new list iterator must point at the term it was created for")
+
+
 def run(ctx, fb, cfg):
     lib = fb.lib
     R = "C21."
@@ -386,6 +429,7 @@ def run(ctx, fb, cfg):
     check_constructors(ctx, lib, R + "K6.sibling-constructors")
     check_iterators(ctx, lib, R + "K6.sibling-iterators")
     check_is_improper(ctx, lib, R + "K6.is-improper")
+    check_list_ops_via_iter(ctx, lib, R + "K3.list-ops-via-iter")
     import termkinds
 
     termkinds.check_term_kinds(ctx, lib, R + "K5.term-kinds")
